@@ -1,4 +1,4 @@
 (* Driver for the C06 correspondence: the same connection model and rendering as C03 (the C06
    cases exercise the three timers, the shutdown signal and blocked peers under virtual time). *)
-From AV Require Import Lib.Base Lib.V H1.ConnRec H1.ConnState Run.RunC03.
+Require Import AV.Lib.Base AV.Lib.V AV.H1.ConnRec AV.H1.ConnState AV.Run.RunC03.
 Definition run_C06 := run_conn.
